@@ -791,6 +791,18 @@ def to_bytes_width(ctx, rule, modules, floor=1):
     def scan(mod_tree, classify):
         out = []
         for c in ast.walk(mod_tree):
+            # a computed width (pages * 8): the flag must be cut to that width before the conversion
+            if isinstance(c, ast.Call) and isinstance(c.func, ast.Attribute) and c.func.attr == 'to_bytes' and c.args and not isinstance(c.args[0], ast.Constant):
+                recv = c.func.value
+                bare = recv.value if isinstance(recv, ast.Attribute) and recv.attr == 'value' else recv
+                if isinstance(bare, ast.Attribute) and dotted(bare.value) == 'self' and classify(bare.attr) is not None:
+                    out.append((c, bare.attr, 0, classify(bare.attr), False))
+                elif isinstance(recv, ast.BinOp) and isinstance(recv.op, ast.BitAnd):
+                    for side in (recv.left, recv.right):
+                        b2 = side.value if isinstance(side, ast.Attribute) and side.attr == 'value' else side
+                        if isinstance(b2, ast.Attribute) and dotted(b2.value) == 'self' and classify(b2.attr) is not None:
+                            out.append((c, b2.attr, 0, classify(b2.attr), True))
+                continue
             if isinstance(c, ast.Call) and isinstance(c.func, ast.Attribute) and c.func.attr == 'to_bytes' and c.args and isinstance(c.args[0], ast.Constant) and isinstance(c.args[0].value, int):
                 width = c.args[0].value
                 recv = c.func.value
@@ -820,7 +832,7 @@ def to_bytes_width(ctx, rule, modules, floor=1):
             return flag_max(cn) if cn else None
         for c, attr, width, mx, ok in scan(m.tree, classify):
             n += 1
-            R.check(ok, rule, f'{p.qual_of(c)} | {attr}.value.to_bytes({width})', f'fits: the flag type goes up to bit {mx.bit_length() - 1} and the value is masked / the field is wide enough', f'`{attr}` is a flag type with members up to bit {mx.bit_length() - 1} but is written with to_bytes({width}) unmasked: with such a feature configured the handler raises OverflowError and the command / procedure is never concluded', f'{m.rel}:{c.lineno}')
+            R.check(ok, rule, f'{p.qual_of(c)} | {attr}.value.to_bytes({width or "computed"})', f'fits: the flag type goes up to bit {mx.bit_length() - 1} and the value is masked / the field is wide enough', f'`{attr}` is a flag type with members up to bit {mx.bit_length() - 1} but is written with to_bytes({width or "a computed width"}) unmasked: with such a feature configured the handler raises OverflowError and the command / procedure is never concluded', f'{m.rel}:{c.lineno}')
     ct = ast.parse('a = self.f.value.to_bytes(8, "little")\nb = (self.f.value & 0xFFFFFFFFFFFFFFFF).to_bytes(8, "little")\n')
     cs = [ok for *_, ok in scan(ct, lambda a: 1 << 70)]
     R.check(cs == [False, True] and n >= floor, rule, f'{", ".join(modules)} | flag values written with a fixed width', f'{n} sites fit their field (positive control matched)', f'control {cs}, {n} sites')
